@@ -23,6 +23,7 @@ mod c15;
 mod c16;
 mod c17;
 mod stdprog;
+mod roblox;
 
 use std::collections::BTreeMap;
 use std::io::Write;
@@ -127,6 +128,7 @@ fn main() {
         "c16" => c16::run(&args, &mut out),
         "c17" => c17::run(&args, &mut out),
         "stdprog" => stdprog::run(&args, &mut out),
+        "roblox" => roblox::run(&args, &mut out),
         other => {
             eprintln!("unknown group {other}");
             std::process::exit(2);
